@@ -562,7 +562,7 @@ func (rule *RuleAction) checkLocalActionMetadata(meta *ActionMetadata, action *E
 func (rule *RuleAction) checkLocalAction(spec string, action *ExecAction) {
 	meta, cached, err := rule.cache.FindMetadata(spec)
 	if err != nil {
-		rule.Error(action.Uses.Pos, err.Error())
+		rule.Error(action.Uses.Pos, escapeNonPrint(err.Error()))
 		return
 	}
 	if meta == nil {
